@@ -72,6 +72,8 @@ class PathCtx:
         self.axioms_seen = set()
         self.forced = 0
         self.derived = set()
+        self.generic = []       # stack of (index var term, guard term): evaluation of a generic element
+        self.generic_keep = []
         self.quiet = 0  # >0: safety obligations are not recorded (re-evaluation of pull closures)
         self.ghost = {}
 
@@ -83,6 +85,12 @@ class PathCtx:
 
     def fresh(self, kind, name):
         nm = self._name(name)
+        if self.generic and kind in ("real", "int", "bool"):
+            # a value created while evaluating the generic element k of a comprehension depends on k
+            ks = [g[0] for g in self.generic]
+            srt = {"real": z3.RealSort(), "int": z3.IntSort(), "bool": z3.BoolSort()}[kind]
+            f = z3.Function(nm, *([z3.IntSort()] * len(ks) + [srt]))
+            return sym.wrap(f(*ks)) if False else {"real": SR, "int": SI, "bool": SB}[kind](f(*ks))
         if kind == "real":
             return SR(z3.Real(nm))
         if kind == "int":
@@ -98,12 +106,19 @@ class PathCtx:
         return z3.Function(self._name(name), *(list(domain) + [rng]))
 
     # ---- hypotheses -----------------------------------------------------
+    def _generalise(self, t):
+        ks = [g[0] for g in self.generic]
+        guard = z3.And(*[g[1] for g in self.generic])
+        self.generic_keep.append(z3.ForAll(ks, z3.Implies(guard, t)))
+
     def assume(self, cond):
         if cond is True:
             return
         if cond is False:
             raise Infeasible()
         t = sym._term(cond)
+        if self.generic:
+            self._generalise(t)
         self.hyps.append(t)
         self.solver.add(t)
 
@@ -111,9 +126,34 @@ class PathCtx:
         key = t.hash()
         if key in self.axioms_seen:
             return
-        self.axioms_seen.add(key)
+        if not self.generic:
+            self.axioms_seen.add(key)
+        else:
+            self._generalise(t)
         self.hyps.append(t)
         self.solver.add(t)
+
+    def enter_generic(self, k, guard):
+        """start evaluating an expression for a generic element index k (0 <= k < n [and filter])"""
+        self.solver.push()
+        mark = len(self.hyps)
+        self.generic.append((sym._term(k), sym._term(guard)))
+        g = sym._term(guard)
+        self.hyps.append(g)
+        self.solver.add(g)
+        return (mark, len(self.generic_keep))
+
+    def exit_generic(self, token):
+        mark, keep_mark = token
+        self.generic.pop()
+        del self.hyps[mark:]
+        self.solver.pop()
+        if not self.generic:
+            keep = self.generic_keep[keep_mark:]
+            del self.generic_keep[keep_mark:]
+            for t in keep:
+                self.hyps.append(t)
+                self.solver.add(t)
 
     def note_uf(self, name, t):
         pass
@@ -125,6 +165,13 @@ class PathCtx:
             return True
         if z3.is_false(t):
             return False
+        if self.generic:
+            can_t, can_f = self._feasible(t), self._feasible(z3.Not(t))
+            if can_t and not can_f:
+                return True
+            if can_f and not can_t:
+                return False
+            raise OutOfReach("the element expression of a comprehension branches on a symbolic condition")
         i = len(self.decisions)
         if i < len(self.prefix):
             d = self.prefix[i]
@@ -133,18 +180,16 @@ class PathCtx:
             return d
         can_t = self._feasible(t)
         can_f = self._feasible(z3.Not(t))
-        if can_t and not can_f:
-            self._take(t, True, record=False)
-            return True
-        if can_f and not can_t:
-            self._take(t, False, record=False)
-            return False
         if not can_t and not can_f:
             raise Infeasible()
-        self.decisions.append(True)
-        self.run.pending.append(self.decisions[:-1] + [False])
-        self._take(t, True)
-        return True
+        # forced outcomes are recorded too, so that a re-execution with this prefix takes the same turns even if
+        # the solver answers a feasibility query differently (timeouts)
+        d = True if can_t else False
+        self.decisions.append(d)
+        if can_t and can_f:
+            self.run.pending.append(self.decisions[:-1] + [False])
+        self._take(t, d)
+        return d
 
     def _take(self, t, d, record=True):
         c = t if d else z3.Not(t)
